@@ -50,6 +50,8 @@ class FlatApi:
         f = m.file
         n = 1
         m.field("name", n, "string"); n += 1
+        if r.random() < 0.6:      # a field whose name has another field's name as textual prefix (name / name_suffix, name / names)
+            m.field(r.choice(["name_suffix", "names"]), n, "string"); n += 1
         for nm in r.sample(["title", "count", "ratio", "flag", "blob", "size", "code"], r.randint(2, 4)):
             m.field(nm, n, r.choice(SCALAR_POOL)); n += 1
         if r.random() < 0.6:   # real oneofs must be declared before the synthetic ones of proto3 optional fields
